@@ -29,21 +29,13 @@ class ScopeUnit(Unit):
     bound = {"quick": 2, "thorough": 3}
     maxruns = {"quick": 2500, "thorough": 40000}
     nrandom = {"quick": 150, "thorough": 2000}
-    _strict = None
-
     def strict(self):
-        """Which end_scope the implementation has, decided by observation: a second end_scope on an
-        already closed, empty scope either sets the event again (the code as found) or does not."""
-        if self._strict is None:
-            exe, err = vlib.build_driver(self.driver, self.cfg)
-            if err:
-                self._strict = 0
-                return 0
-            rc, out, _ = vlib.sh2([exe, "-", "rj", "--explore", "0", "1"], timeout=120)
-            line = [l for l in out.split("\n") if l.startswith("TRACE ")]
-            nset = line[0].count("evt.state X.") if line else 2
-            self._strict = 1 if nset == 1 else 0
-        return self._strict
+        """The model variant tied to the code: end_scope / end_of_scope sets the event only when
+        this very call closed the scope (read open and count = 0).  The variant the code had before
+        (set whenever count = 0 was read) is kept in the model only for the refuted theorem; a
+        regression to it shows up as the monitor failure `scope touched after ...` and as a
+        lock-step difference (an extra `evt SET`)."""
+        return 1
 
     def model_args(self, prog):
         sp, jn = prog[0].replace("-", ""), prog[1]
@@ -205,7 +197,6 @@ class ScopeUnit(Unit):
 class ScopeV2(ScopeUnit):
     name = "v2::async_scope/Scope"; driver = "k1_scope"; variant = "v2"
     def programs(self, tier):
-        self.strict()
         if tier == "quick":
             return [("s", "j"), ("s", "jj"), ("ss", "j"), ("sd", "j"), ("c", "j"), ("sn", "j"),
                     ("d", "jj"), ("ss", "jj"), ("sc", "j"), ("s", "rj"), ("-", "jj"), ("sss", "j"),
@@ -219,7 +210,6 @@ class ScopeV2(ScopeUnit):
 class ScopeV1(ScopeUnit):
     name = "v1::async_scope/Scope"; driver = "k1_scope_v1"; variant = "v1"
     def programs(self, tier):
-        self.strict()
         if tier == "quick":
             return [("s", "k"), ("s", "j"), ("a", "k"), ("sa", "k"), ("s", "rj"), ("f", "k"),
                     ("ss", "k"), ("sn", "k"), ("a", "jk"), ("s", "q"), ("sa", "rj"), ("sd", "k")]
@@ -231,7 +221,6 @@ class ScopeV1(ScopeUnit):
 class ScopeV0(ScopeUnit):
     name = "v0::async_scope/Scope"; driver = "k1_scope_v0"; variant = "v0"
     def programs(self, tier):
-        self.strict()
         if tier == "quick":
             return [("s", "j"), ("s", "k"), ("ss", "k"), ("s", "rj"), ("sn", "k"), ("s", "jk"),
                     ("ss", "j"), ("s", "q"), ("ss", "rj"), ("-", "jk")]
